@@ -18,7 +18,7 @@ CHECKS = {
  "C01": ("exploration", "§6 C01", "deterministic simulation: sequential store workloads vs. map model on the simulated disk, seeded swarm search",
          "Seeded simulated runs of the real store (real files on tmpfs behind the libc interposer, real background thread under the simulated scheduler and clock) against a BTreeMap model, operation by operation plus periodic full scans; configurations include max_file_size 0/1, cache 0, pool 0, values around and above the 8 KiB buffer and above the file limit, merges by hook and by the store's own timer, legal short writes/EINTR/latency."),
  "C02": ("exploration", "§6 C02", "deterministic simulation: close/reopen cycles vs. map model, seeded swarm search",
-         "Histories of set/delete across many data files followed by 1-4 reopen cycles (also back to back, also while the old background thread is still alive); after each reopen a full scan must equal the model and a reopen without writes must leave the set of non-empty data files unchanged."),
+         "Histories of set/delete across many data files followed by 1-4 reopen cycles (also back to back, also while the old background thread is still alive); a fifth of the workloads run with the store's own timer-driven merging switched on (the default configuration merges in the background); after each reopen a full scan must equal the model and, where nothing but client writes changes the store, a reopen without writes must leave the set of non-empty data files unchanged."),
  "C04": ("exploration", "§6 C04", "deterministic simulation: seeded random / PCT schedules of writer, reader and merger threads; per-key linearizability check (Wing-Gong search) of the recorded history against a register model",
          "1-3 writer threads, 1-3 reader threads and optionally a merging thread (hook) or the store's own timer-driven merges share one store; every lock, atomic, queue operation and every file-system call is a scheduling point decided by the seeded scheduler (random with 2-40% switch probability, PCT depth 1-5). Values straddle the 8 KiB buffer (two-write entries), pool 1-4, cache 0-256, small file limits. Oracles: no operation errs or panics, each key's history with a final quiescent read is linearizable, no deadlock/livelock (facts from the scheduler's wait-for state), the reader pool is back at capacity."),
  "C05": ("exploration", "§6 C05", "deterministic simulation: scan-before == scan-after == scan-after-reopen == model around every merge, thresholds re-tuned from live statistics",
@@ -50,9 +50,9 @@ CHECKS = {
  "C17": ("exploration", "§6 C17", "deterministic simulation on the discrete-event clock: the store's background thread (adopted through pthread_create interposition) under seeded schedules, drop at generated instants, stale-handle use, immediate reopen, open/close cycles",
          "Merge policy always / interval sync with check intervals from 10 ms to 1 h, disk latency stretching merges and syncs, 0-2 client threads racing the drop. Oracles: every operation invoked through a handle after the drop returned yields the 'closed' error; operations racing the drop go either way and define the model; the directory opens again at once and holds exactly the acknowledged contents; every background worker exits without the simulated clock having to reach its next timer (slack = 50 simulated ms plus injected disk latency; a worker still alive after two of its longest timer intervals is reported as never exiting); no store descriptor stays open after the cycles."),
  "C18": ("exploration", "§6 C18", "deterministic simulation on the discrete-event clock: triggers placed just above / exactly at / below the statistics a workload produced; merges and fsyncs observed in the I/O log with simulated timestamps",
-         "Phase 1 produces a write pattern with background tasks off; phase 2 reopens with policy never/always and triggers set relative to the real per-file statistics (dead bytes or fragmentation just crossed, exactly equal, far above, far below), check intervals 10 ms - 1 h, jitter 0-1 with thread_rng forced to range extremes; then only simulated time passes. Oracles: never => no merge; trigger exceeded => first merge within interval*(1+jitter); not exceeded => no merge within 3 such spans; interval sync => no fsync gap longer than the interval and the forced file is the active one."),
+         "Phase 1 produces a write pattern with background tasks off; phase 2 reopens with policy never/always and triggers set relative to the real per-file statistics (dead bytes or fragmentation just crossed, exactly equal, far above, far below), check intervals 10 ms - 1 h, jitter 0-1 with thread_rng forced to range extremes; then only simulated time passes. Oracles: never => no merge; trigger exceeded => first merge within interval*(1+jitter); not exceeded => no merge within 3 such spans; interval sync => no fsync gap longer than the interval and the forced file is the active one. A third round checks interval sync while two client threads write under injected disk latency (the writer lock is held across simulated time, sync ticks fall into those periods): between two forced syncs there may be the interval plus exactly the time the store's own threads spent waiting for locks and disk in that span (simulated time only passes while threads wait, so the allowance is exact and independent of lock fairness or of how the loop is written)."),
  "C19": ("exploration", "§6 C19", "deterministic simulation: verif_dump bookkeeping vs. independent scan of the files after every operation",
-         "After every operation the index and per-file live/dead/dead_bytes counters (verif_dump) are compared with an independent decoder's scan of the shadow files; overflow checks are on in the shadow build so counter underflow panics."),
+         "After every operation the index and per-file live/dead/dead_bytes counters (verif_dump) are compared with an independent decoder's scan of the shadow files; overflow checks are on in the shadow build so counter underflow panics. A quarter of the runs are concurrent histories (1-3 writer threads, 1-3 reader threads, optionally a merging thread, seeded random / PCT schedules); the same comparison is made once every thread has been joined, with the contents taken from a final scan."),
 }
 
 def main():
